@@ -162,10 +162,14 @@ func (br *BodyBuffer) Reset() error {
 	if environment.HasAccessToFS && br.writer != nil {
 		w := br.writer
 		br.writer = nil
-		if err := w.Close(); err != nil {
-			return err
+		// The temporary file has to be removed even if closing it fails,
+		// otherwise it would be left behind in the temporary directory.
+		closeErr := w.Close()
+		removeErr := os.Remove(w.Name())
+		if closeErr != nil {
+			return closeErr
 		}
-		return os.Remove(w.Name())
+		return removeErr
 	}
 
 	return nil
